@@ -138,6 +138,8 @@ def field_witness(cls_name, field):
     # equal by == : look for divergent behaviour under edits
     for seed in range(25):
         tr, _, _ = run_pair("witness", seeded_problem(base), random.Random(seed), 30, 6)
+        # the open finding on hierarchical problems (shared methods) is not evidence about THIS attribute
+        tr.violations = [v for v in tr.violations if not (base == "HierarchicalProblem" and v[2] == "aliasing:act_eff")]
         if tr.violations:
             payload["divergence"] = tr.violations[:2]
             payload["last_step"] = tr.steps[-1] if tr.steps else None
